@@ -31,6 +31,7 @@ struct Judge {
             res.sample("{\"scenario\": " + vu::jesc(sc.describe().substr(0, 1200)) + ", \"observed\": {\"connections\": " + std::to_string(ex.world->h.conns.size()) + ", \"client_packets\": " +
                        std::to_string(ex.world->h.cpkts.size()) + ", \"broker_packets\": " + std::to_string(ex.world->h.bpkts.size()) + ", \"operations\": " + std::to_string(ex.world->h.ops.size()) + "}}");
         res.count("connections", ex.world->h.conns.size());
+        for (auto& o : ex.world->h.ops) if (o.signalled && o.kind != OpKind::recv && o.kind != OpKind::run) { res.count("requests_signalled"); if (o.signal_type != 1 && o.completions && o.ec == boost::asio::error::operation_aborted) res.count("requests_aborted_after_total_or_partial_signal"); }
         if (ex.broker && ex.broker->acks_withheld) { res.count("acks_withheld_on_live_connections", ex.broker->acks_withheld); res.count("scenarios_with_withheld_acks"); }
         { int sentry = 0; for (auto& k : ex.world->h.cpkts) if (k.dec.status == ref::Status::ok && k.dec.pkt.type == ref::DISCONNECT && k.dec.pkt.rc == 0x80) ++sentry; if (sentry) res.count("no_reply_disconnects", sentry); if (sentry > 1) res.count("scenarios_with_2plus_no_reply_disconnects"); }
         res.count("client_packets", ex.world->h.cpkts.size());
@@ -82,6 +83,7 @@ struct Knobs {
     int authenticator_pct = 0;   // the client uses enhanced authentication (broker runs 0-1 challenge rounds)
     int invalid_pub_pct = 0;     // publishes that fail validation (must be refused at once and leave no trace in quota / ids)
     int rm_change_pct = 0;       // the broker announces a different Receive Maximum (or none) on later connections
+    int signal_pct = 0;          // per request: bound to a cancellation slot and signalled (total / partial, rarely terminal) some time after initiation
     int drop_ack_pct = 0;        // scenarios in which the broker withholds acknowledgements on a live connection for the first 30 s (only the 20 s sentry helps)
     int own_limit_pct = 0;       // the client announces a Maximum Packet Size; the broker sends messages exactly at / just below it
 };
@@ -178,6 +180,18 @@ Scenario gen_mix(vu::Rng& rng, const Knobs& k, const std::string& family) {
         if (rng.chance(1, 3)) { ref::Gen g(rng); g.max_str = 30; b.props = g.props(ref::PUBLISH, -1, {0x23}); }
         sc.script.push_back(b);
     }
+    if (k.signal_pct) {
+        size_t n0 = sc.script.size();
+        for (size_t i = 0; i < n0; ++i) {
+            auto kd = sc.script[i].kind;
+            if (kd != Action::publish && kd != Action::subscribe && kd != Action::unsubscribe) continue;
+            if ((int)rng.below(100) >= k.signal_pct) continue;
+            sc.script[i].with_slot = true;
+            Action g; g.kind = Action::signal; g.target = (int)i; g.sig = rng.chance(1, 12) ? SigType::terminal : rng.chance(1, 2) ? SigType::total : SigType::partial;
+            g.at = sc.script[i].at + (vt)rng.pick(std::vector<vt>{0, 1 * MS, 20 * MS, 300 * MS, 2 * SEC});
+            sc.script.push_back(g);
+        }
+    }
     if ((int)rng.below(100) < k.drop_ack_pct) { sc.bcfg.drop_ack_pct = (int)rng.pick(std::vector<int>{30, 50, 70}); sc.bcfg.drop_ack_until = 30 * SEC; if (sc.ccfg.keep_alive && sc.ccfg.keep_alive < 40) sc.ccfg.keep_alive = 60; }
     if ((int)rng.below(100) < k.own_limit_pct) {
         uint32_t lim = (uint32_t)rng.pick(std::vector<int>{70, 127, 128, 129, 130, 200, 300, 1000, 16383, 16384, 16390});
@@ -270,18 +284,18 @@ Scenario reference_workload(int which, uint64_t seed) {
 
 Knobs knobs_for(const std::string& family) {
     Knobs k;
-    if (family == "c01-mix") { k.inbound = 3; k.qos_w[0] = 0; k.qos_w[1] = 1; k.qos_w[2] = 1; k.authenticator_pct = 10; }
-    else if (family == "c02-mix") { k.faults_max = 3; k.bad_attempts_max = 3; k.authenticator_pct = 10; k.drop_ack_pct = 15; }
-    else if (family == "c03-mix") { k.qos_w[0] = 1; k.qos_w[1] = 1; k.qos_w[2] = 4; k.faults_max = 3; k.rm_choices = {0, 1, 2, 3}; }
+    if (family == "c01-mix") { k.inbound = 3; k.qos_w[0] = 0; k.qos_w[1] = 1; k.qos_w[2] = 1; k.authenticator_pct = 10; k.signal_pct = 5; }
+    else if (family == "c02-mix") { k.faults_max = 3; k.bad_attempts_max = 3; k.authenticator_pct = 10; k.drop_ack_pct = 15; k.signal_pct = 8; }
+    else if (family == "c03-mix") { k.qos_w[0] = 1; k.qos_w[1] = 1; k.qos_w[2] = 4; k.faults_max = 3; k.rm_choices = {0, 1, 2, 3}; k.signal_pct = 8; }
     else if (family == "c04-mix") { k.pubs_max = 4; k.inbound = 8; k.faults_max = 3; k.lose_session_pct = 25; k.subs = 1; k.own_limit_pct = 20; }
-    else if (family == "c05-mix") { k.suffix = 15 * SEC; }
+    else if (family == "c05-mix") { k.suffix = 15 * SEC; k.signal_pct = 25; }
     else if (family == "c06-rm-change") { k.pubs_min = 3; k.pubs_max = 30; k.burst_pct = 80; k.faults_max = 3; k.qos_w[0] = 3; k.big_payload_pct = 0; k.inbound = 0; k.subs = 0; k.rm_change_pct = 100; k.ack_delay_max = 100 * MS; }
-    else if (family == "c06-mix") { k.pubs_min = 2; k.pubs_max = 60; k.burst_pct = 70; k.faults_max = 3; k.qos_w[0] = 2; k.big_payload_pct = 2; k.inbound = 0; k.subs = 0; }
-    else if (family == "c07-mix") { k.pubs_min = 4; k.pubs_max = 30; k.burst_pct = 80; k.rm_choices = {1, 1, 2, 3, 4, 8, 65535}; k.qos_w[0] = 1; k.faults_max = 2; k.ack_delay_max = 200 * MS; k.inbound = 1; k.subs = 0; k.invalid_pub_pct = 8; k.rm_change_pct = 30; }
-    else if (family == "c08-mix") { k.pubs_min = 5; k.pubs_max = 40; k.subs = 2; k.unsubs = 2; k.faults_max = 2; k.inbound = 3; }
+    else if (family == "c06-mix") { k.pubs_min = 2; k.pubs_max = 60; k.burst_pct = 70; k.faults_max = 3; k.qos_w[0] = 2; k.big_payload_pct = 2; k.inbound = 0; k.subs = 0; k.signal_pct = 8; }
+    else if (family == "c07-mix") { k.pubs_min = 4; k.pubs_max = 30; k.burst_pct = 80; k.rm_choices = {1, 1, 2, 3, 4, 8, 65535}; k.signal_pct = 12; k.qos_w[0] = 1; k.faults_max = 2; k.ack_delay_max = 200 * MS; k.inbound = 1; k.subs = 0; k.invalid_pub_pct = 8; k.rm_change_pct = 30; }
+    else if (family == "c08-mix") { k.pubs_min = 5; k.pubs_max = 40; k.subs = 2; k.unsubs = 2; k.faults_max = 2; k.inbound = 3; k.signal_pct = 12; }
     else if (family == "c11-mix") { k.keep_alive = 2; k.faults_max = 3; k.bad_attempts_max = 3; k.pubs_max = 8; k.ack_delay_max = 500 * MS; k.suffix = 60 * SEC; }
     else if (family == "c13-mix") { k.pubs_max = 4; k.subs = 2; k.faults_max = 3; k.lose_session_pct = 60; k.inbound = 2; k.authenticator_pct = 25; }
-    else if (family == "c14-mix") { k.pubs_max = 2; k.subs = 3; k.unsubs = 2; k.faults_max = 2; }
+    else if (family == "c14-mix") { k.pubs_max = 2; k.subs = 3; k.unsubs = 2; k.faults_max = 2; k.signal_pct = 10; }
     else if (family == "c14-hostile") { k.pubs_max = 2; k.subs = 3; k.unsubs = 2; k.faults_max = 1; k.inbound = 0; k.hostile_count_pct = 35; k.hostile_rc_pct = 15; }
     else if (family == "c01-hostile-rc") { k.inbound = 0; k.qos_w[0] = 0; k.qos_w[1] = 1; k.qos_w[2] = 1; k.subs = 0; k.faults_max = 1; k.hostile_rc_pct = 20; }
     return k;
